@@ -23,7 +23,7 @@ class Unsupported(Exception):
     pass
 
 
-VEC_TAGS = {"vsym", "vzero", "vadd", "vscale", "cross", "vfun", "dvfun"}
+VEC_TAGS = {"vsym", "vzero", "vadd", "vscale", "cross", "vfun", "dvfun", "ddvfun"}
 
 
 def is_vec(r) -> bool:
@@ -46,6 +46,8 @@ def coq_of_recipe(r) -> str:
         return f"f{r[1]}"
     if t == "dvfun":
         return f"df{r[1]}"
+    if t == "ddvfun":
+        return f"ddf{r[1]}"
     if t == "vzero":
         return "vzero"
     if t == "vadd":
@@ -85,6 +87,8 @@ def show_recipe(r) -> str:
         return f"F{r[1]}(t)"
     if t == "dvfun":
         return f"F{r[1]}'(t)"
+    if t == "ddvfun":
+        return f"F{r[1]}''(t)"
     if t == "vzero":
         return "0"
     if t == "vadd":
@@ -123,7 +127,7 @@ def recipe_atoms(r, acc=None):
     t = r[0]
     if t == "vsym":
         acc["v"].add(r[1])
-    elif t in ("vfun", "dvfun"):
+    elif t in ("vfun", "dvfun", "ddvfun"):
         acc["f"].add(r[1])
     elif t == "ssym":
         acc["s"].add(r[1])
@@ -170,20 +174,20 @@ def norm_args(r, acc=None):
 # ---------------------------------------------------------------------------------------------
 
 class Env:
-    def __init__(self, vecs, scals, par=Fraction(0), funs=None, dfuns=None):
+    def __init__(self, vecs, scals, par=Fraction(0), funs=None, dfuns=None, ddfuns=None):
         self.vecs, self.scals, self.par = vecs, scals, par
-        self.funs, self.dfuns = funs or [], dfuns or []
+        self.funs, self.dfuns, self.ddfuns = funs or [], dfuns or [], ddfuns or []
 
     def to_json(self):
         j = lambda v: [str(c) for c in v]
         return {"vectors": [j(v) for v in self.vecs], "scalars": [str(s) for s in self.scals], "t": str(self.par),
-            "F": [j(v) for v in self.funs], "dF": [j(v) for v in self.dfuns]}
+            "F": [j(v) for v in self.funs], "dF": [j(v) for v in self.dfuns], "ddF": [j(v) for v in self.ddfuns]}
 
     @staticmethod
     def from_json(d):
         fr = lambda v: tuple(Fraction(c) for c in v)
         return Env([fr(v) for v in d["vectors"]], [Fraction(s) for s in d["scalars"]], Fraction(d["t"]),
-            [fr(v) for v in d.get("F", [])], [fr(v) for v in d.get("dF", [])])
+            [fr(v) for v in d.get("F", [])], [fr(v) for v in d.get("dF", [])], [fr(v) for v in d.get("ddF", [])])
 
 
 def v_add(a, b):
@@ -223,6 +227,8 @@ def eval_recipe(r, env: Env):
         return env.funs[r[1]]
     if t == "dvfun":
         return env.dfuns[r[1]]
+    if t == "ddvfun":
+        return env.ddfuns[r[1]]
     if t == "vzero":
         return ZERO3
     if t == "vadd":
@@ -281,10 +287,47 @@ class Objs:
     symbols; `rank` (optional) assigns identity ranks: symbol i gets the object whose id() has rank rank[i]
     among freshly created ones, so every id()-order can be produced deterministically."""
 
-    def __init__(self, nvec, nscal, nfun=0, rank=None, creation=None):
+    def __init__(self, nvec, nscal, nfun=0, rank=None, creation=None, spread=None, spread_rng=None):
         from symplyphysics.core.experimental.vectors import VectorSymbol, VectorFunction  # pylint: disable=import-outside-toplevel
         names = "abcdefgh"
-        if rank is not None:
+        self.between = None
+        if spread is not None:
+            # A zoo of symbols and (cached) unevaluated cross nodes allocated alternately, so that the memory pools of the
+            # two kinds of object interleave; then objects are *selected* such that the node of (p, q) lies between x and
+            # y in id() order.  spread = (p, q, x, y): indices of the recipe's symbols playing these roles.
+            from symplyphysics.core.experimental.vectors import VectorCross  # pylint: disable=import-outside-toplevel
+            rnd = spread_rng or __import__("random").Random(0)
+            zoo, nodes = [], []
+            for i in range(260):
+                zoo.append(VectorSymbol(None))
+                if i >= 2:
+                    p, q = sorted(rnd.sample(zoo[:-1], 2), key=id)
+                    nodes.append((VectorCross(p, q, evaluate=False), p, q))
+            self._zoo = (zoo, nodes)
+            ip, iq, ix, iy = spread
+            rnd.shuffle(nodes)
+            chosen = None
+            for nd, p, q in nodes:
+                lo = [s for s in zoo if id(s) < id(nd) and s is not p and s is not q]
+                hi = [s for s in zoo if id(s) > id(nd) and s is not p and s is not q]
+                if lo and hi:
+                    chosen = (nd, p, q, rnd.choice(lo), rnd.choice(hi))
+                    break
+            if chosen is not None:
+                nd, p, q, x, y = chosen
+                if rnd.random() < 0.5:
+                    p, q = q, p
+                if rnd.random() < 0.5:
+                    x, y = y, x
+                used = {id(p), id(q), id(x), id(y)}
+                rest = [s for s in zoo if id(s) not in used]
+                rnd.shuffle(rest)
+                role = {ip: p, iq: q, ix: x, iy: y}
+                self.vecs = [role[i] if i in role else rest.pop() for i in range(nvec)]
+                self.between = VectorCross(*sorted((p, q), key=id), evaluate=False) is nd
+            else:
+                self.vecs = zoo[:nvec]
+        elif rank is not None:
             pool = [VectorSymbol(None) for _ in range(nvec)]
             pool.sort(key=id)
             self.vecs = [pool[rank[i]] for i in range(nvec)]
@@ -419,8 +462,8 @@ def coq_of_sympy(e, c: OutCtx, want: str) -> str:
                 raise Unsupported(f"unknown vector function application {e}")
             return f"f{c.fun_name[e]}"
         if isinstance(e, V.VectorDerivative):
-            if len(e.args) == 2 and e.args[0] in c.fun_name and tuple(e.args[1]) == (c_par(c), 1):
-                return f"df{c.fun_name[e.args[0]]}"
+            if len(e.args) == 2 and e.args[0] in c.fun_name and tuple(e.args[1]) in ((c_par(c), 1), (c_par(c), 2)):
+                return ("df" if e.args[1][1] == 1 else "ddf") + str(c.fun_name[e.args[0]])
             raise Unsupported(f"derivative form {e}")
         if isinstance(e, V.VectorCross):
             return f"(cross {coq_of_sympy(e.args[0], c, 'v')} {coq_of_sympy(e.args[1], c, 'v')})"
@@ -499,8 +542,8 @@ def eval_sympy(e, c: OutCtx, env: Env, want: str):
         if isinstance(e, V.AppliedVectorFunction):
             return env.funs[c.fun_name[e]]
         if isinstance(e, V.VectorDerivative):
-            if len(e.args) == 2 and e.args[0] in c.fun_name:
-                return env.dfuns[c.fun_name[e.args[0]]]
+            if len(e.args) == 2 and e.args[0] in c.fun_name and int(e.args[1][1]) in (1, 2):
+                return (env.dfuns if int(e.args[1][1]) == 1 else env.ddfuns)[c.fun_name[e.args[0]]]
             raise Unsupported(f"derivative form {e}")
         if isinstance(e, V.VectorCross):
             return v_cross(eval_sympy(e.args[0], c, env, "v"), eval_sympy(e.args[1], c, env, "v"))
@@ -568,6 +611,8 @@ def diff_recipe(r):
         return ("vzero",)
     if t == "vfun":
         return ("dvfun", r[1])
+    if t == "dvfun":
+        return ("ddvfun", r[1])
     if t == "vadd":
         return ("vadd", diff_recipe(r[1]), diff_recipe(r[2]))
     if t == "vscale":
@@ -618,6 +663,8 @@ def comps_of_recipe(r):
         return _vec_syms(f"f{r[1]}")
     if t == "dvfun":
         return _vec_syms(f"df{r[1]}")
+    if t == "ddvfun":
+        return _vec_syms(f"ddf{r[1]}")
     if t == "vzero":
         return (S.Zero, S.Zero, S.Zero)
     if t == "vadd":
@@ -668,7 +715,7 @@ def comps_of_sympy(e, c: OutCtx, want: str):
         if isinstance(e, V.AppliedVectorFunction):
             return _vec_syms(f"f{c.fun_name[e]}")
         if isinstance(e, V.VectorDerivative):
-            return _vec_syms(f"df{c.fun_name[e.args[0]]}")
+            return _vec_syms(("df" if int(e.args[1][1]) == 1 else "ddf") + str(c.fun_name[e.args[0]]))
         if isinstance(e, V.VectorCross):
             return v_cross(comps_of_sympy(e.args[0], c, "v"), comps_of_sympy(e.args[1], c, "v"))
         if isinstance(e, sympy.Add):
@@ -723,7 +770,7 @@ def scalar_poly_to_coq(p) -> str:
             return f"(norm {n[2:-1]})"
         if n.startswith("A["):
             return f"(Rabs {n[2:-1]})"
-        if n[0] in "vf" or n.startswith("df"):
+        if n[0] in "vf" or n.startswith("df") or n.startswith("ddf"):
             return f"(v{n[-1]} {n[:-1]})"
         return n
     if isinstance(p, sympy.Add):
@@ -732,6 +779,8 @@ def scalar_poly_to_coq(p) -> str:
         return "(" + " * ".join(scalar_poly_to_coq(a) for a in p.args) + ")"
     if isinstance(p, sympy.Pow) and isinstance(p.args[1], sympy.Integer) and 0 <= int(p.args[1]) <= 8:
         return _pow_text(scalar_poly_to_coq(p.args[0]), int(p.args[1]))
+    if isinstance(p, sympy.Pow) and isinstance(p.args[1], sympy.Integer) and -8 <= int(p.args[1]) < 0:
+        return f"(/ {_pow_text(scalar_poly_to_coq(p.args[0]), -int(p.args[1]))})"
     raise Unsupported(f"factor {p}")
 
 
@@ -739,7 +788,7 @@ def binder(atoms, with_funs=True) -> str:
     parts = []
     vs = [f"v{i}" for i in sorted(atoms["v"])]
     if with_funs:
-        vs += [f"f{i}" for i in sorted(atoms["f"])] + [f"df{i}" for i in sorted(atoms["f"])]
+        vs += [f"f{i}" for i in sorted(atoms["f"])] + [f"df{i}" for i in sorted(atoms["f"])] + [f"ddf{i}" for i in sorted(atoms["f"])]
     if vs:
         parts.append("(" + " ".join(vs) + " : V3)")
     ss = [f"s{j}" for j in sorted(atoms["s"])] + (["t"] if atoms["par"] else [])
